@@ -42,7 +42,7 @@ def derivative(poly: PolyLike, *diffvars: Union[ndpoly, str, int]) -> ndpoly:
     for diffvar in diffvars:
         if isinstance(diffvar, str):
             idx = poly.names.index(diffvar)
-        elif isinstance(diffvar, int):
+        elif isinstance(diffvar, (int, numpy.integer)):
             idx = poly.names.index(names_ref[diffvar])
         else:
             diffvar = numpoly.aspolynomial(diffvar)
